@@ -30,6 +30,8 @@ TINY = 1e-18                                      # a hypothesis ~41 nats below 
 TINY2 = 1e-200                                    # ~460 nats below: products of two such arcs underflow to exactly 0.0
 TINY3 = 1e-310                                    # a subnormal weight: still positive, still to be normalised
 EVENTS += [(h, TINY) for h in STRINGS] + [(h, TINY2) for h in STRINGS] + [(h, TINY3) for h in STRINGS]     # only used by the 'extreme' sub-sweep
+SPACED = ['a  b', '  ', ' a', 'a ', ' ', 'a b  ']     # hypotheses with single, double, leading and trailing spaces (the space is an ordinary symbol)
+EVENTS += [(h, 1.0) for h in SPACED]                  # ('extreme' sub-sweep as well)
 BOUNDS = {'quick': dict(depth=3), 'thorough': dict(depth=4)}
 BOUNDS['replay'] = BOUNDS['quick']
 EPS = 1e-9
@@ -329,6 +331,14 @@ def check_history(case, ctx, hist):
         if abs(sum(pos.values()) - 1) > EPS:
             ctx.violation('normalised-sums-to-one', f'{ID}/normalize/position-sum', f'{pos} in {fin}; {desc}')
             break
+    # normalisation rescales the arcs of a position, it neither drops nor adds any (every hypothesis stays a path of the normalised network)
+    if len(fin) != len(after) or any(set(a) != set(b) for a, b in zip(fin, after)):
+        ctx.violation('paths-are-all-arc-combinations', f'{ID}/normalize/arcs-changed',
+                      f'normalize_cn turns {after} into {fin}: the arc sets differ; {desc}')
+    elif any(s_ in (TINY, TINY2, TINY3) for _, s_ in hist) and any(len(p) > 1 for p in fin):
+        ctx.tag('normalised-position-with-a-vanishing-arc')
+    if any(' ' in h_ for h_, _ in hist):
+        ctx.tag('hypotheses-with-spaces')
     n_comb = 1
     for pos in fin:
         n_comb *= len(pos)
@@ -374,5 +384,5 @@ def describe(tier):
                 'every history and on the final network. Non-trivial: an add that inserted >= 2 new positions at once.',
         'bounds': BOUNDS[tier], 'alphabets': {'strings': STRINGS, 'scores': SCORES},
         'assumptions': ['sorted_cn_paths is compared with the full product only when the product has <= 4000 paths (counter reports skips)'],
-        'min_nontrivial': 20, 'required_tags': ['hypotheses-longer-than-255', 'vanishing-score-hypothesis', 'insertion', 'several-insertions-in-one-add', 'bag-with-lm-scores'],
+        'min_nontrivial': 20, 'required_tags': ['normalised-position-with-a-vanishing-arc', 'hypotheses-with-spaces', 'hypotheses-longer-than-255', 'vanishing-score-hypothesis', 'insertion', 'several-insertions-in-one-add', 'bag-with-lm-scores'],
     }
